@@ -1,4 +1,317 @@
 package main
 
-// templateChecks: C20 type/provenance obligations (filled in later).
-func templateChecks(eng *Engine, key string) []*Obligation { return nil }
+import (
+	"fmt"
+	"go/constant"
+	"go/types"
+	"sort"
+	"strings"
+	"text/template/parse"
+
+	"golang.org/x/tools/go/ssa"
+	"golang.org/x/tools/go/ssa/ssautil"
+)
+
+// C20: type- and provenance-level obligations. What they establish is the precondition of the
+// (assumed) library contract "html/template escapes untrusted-typed data for the context it appears in":
+// the pages are html/template templates, no value of a trusted type (template.HTML, JS, CSS, URL, ...)
+// and no interface-typed value reaches them, no custom template function is registered, the template
+// sources use only field access and the escaper-safe builtins, and JSON bodies are produced by encoding/json.
+
+var trustedTemplateTypes = map[string]bool{"HTML": true, "HTMLAttr": true, "JS": true, "JSStr": true, "CSS": true, "URL": true, "Srcset": true}
+
+func templateChecks(eng *Engine, key string) []*Obligation {
+	var out []*Obligation
+	pkgs := []string{modPrefix + "internal/proxy", modPrefix + "internal/auth", modPrefix + "internal/pkg/templates"}
+	inScope := func(fn *ssa.Function) bool {
+		p := fnPkgPath(fn)
+		for _, q := range pkgs {
+			if p == q {
+				return true
+			}
+		}
+		return false
+	}
+	var fns []*ssa.Function
+	for fn := range ssautil.AllFunctions(eng.prog) {
+		if inScope(fn) && fn.Blocks != nil {
+			fns = append(fns, fn)
+		}
+	}
+	sort.Slice(fns, func(i, j int) bool { return fns[i].String() < fns[j].String() })
+	props := []string{"C20"}
+
+	// (1) no text/template import in the packages that render pages
+	for _, pp := range pkgs {
+		p := eng.allPkgs[pp]
+		if p == nil {
+			continue
+		}
+		bad := ""
+		for imp := range p.Imports {
+			if imp == "text/template" {
+				bad = imp
+			}
+		}
+		out = append(out, mkObT(shortPkg(pp)+"/templates[no-text-template]", "package "+shortPkg(pp)+" does not import text/template", bad == "", "imports "+bad, props))
+	}
+
+	// (2) every ExecuteTemplate call: receiver is html/template (or the sso wrapper), data is inert
+	nExec := 0
+	for _, fn := range fns {
+		nFn := 0
+		for _, b := range fn.Blocks {
+			for _, in := range b.Instrs {
+				c, ok := in.(ssa.CallInstruction)
+				if !ok {
+					continue
+				}
+				cc := c.Common()
+				name := callSiteName(cc)
+				if name == "Funcs" {
+					if sc := cc.StaticCallee(); sc != nil && strings.Contains(sc.String(), "template.Template") {
+						out = append(out, mkObT(shortFn(fn)+"/templates[no-custom-funcs]", "no custom template functions are registered", false, "call of "+sc.String(), props))
+					}
+				}
+				if name != "ExecuteTemplate" {
+					continue
+				}
+				nExec++
+				nFn++
+				var recvT types.Type
+				var data ssa.Value
+				if cc.IsInvoke() {
+					recvT = cc.Value.Type()
+					data = cc.Args[2]
+				} else {
+					recvT = cc.Args[0].Type()
+					data = cc.Args[3]
+				}
+				rt := types.TypeString(recvT, nil)
+				okRecv := rt == "*html/template.Template" || strings.HasSuffix(rt, "internal/pkg/templates.Template") || strings.HasSuffix(rt, "internal/pkg/templates.HTMLTemplate")
+				out = append(out, mkObT(fmt.Sprintf("%s/templates[html-template#%d]", shortFn(fn), nFn), "ExecuteTemplate is html/template's (or the sso wrapper around it)", okRecv, "receiver type "+rt, props))
+				// static type of the data before it is boxed
+				dt := data.Type()
+				if mi, ok := data.(*ssa.MakeInterface); ok {
+					dt = mi.X.Type()
+				}
+				why := inertType(dt, map[types.Type]bool{})
+				if _, isIface := dt.Underlying().(*types.Interface); isIface && strings.HasSuffix(shortFn(fn), "HTMLTemplate).ExecuteTemplate") {
+					why = "" // the wrapper forwards its caller's data; callers are checked at their own call sites
+				}
+				out = append(out, mkObT(fmt.Sprintf("%s/templates[inert-data#%d]", shortFn(fn), nFn), "template data has only string/number/bool (and slices of those) fields: no trusted-typed or interface-typed value", why == "", "data type "+types.TypeString(dt, nil)+": "+why, props))
+			}
+		}
+	}
+	out = append(out, mkObT("templates[render-sites-found]", "at least one ExecuteTemplate call site was found (vacuity guard)", nExec > 0, fmt.Sprintf("%d sites", nExec), props))
+
+	// (3) the template sources themselves
+	nSrc := 0
+	for _, fn := range fns {
+		nFn := 0
+		for _, b := range fn.Blocks {
+			for _, in := range b.Instrs {
+				c, ok := in.(*ssa.Call)
+				if !ok || callSiteName(&c.Call) != "Parse" {
+					continue
+				}
+				sc := c.Call.StaticCallee()
+				if sc == nil || !strings.Contains(sc.String(), "html/template.Template") {
+					continue
+				}
+				k, ok := c.Call.Args[1].(*ssa.Const)
+				if !ok || k.Value == nil || k.Value.Kind() != constant.String {
+					out = append(out, mkObT(fmt.Sprintf("%s/templates[constant-source#%d]", shortFn(fn), nFn+1), "template source is a string constant", false, "non-constant template source", props))
+					continue
+				}
+				nSrc++
+				nFn++
+				src := constant.StringVal(k.Value)
+				why := checkTemplateSource(src)
+				out = append(out, mkObT(fmt.Sprintf("%s/templates[plain-source#%d]", shortFn(fn), nFn), "template source uses only field access and the builtins if/range/template/eq/ne/gt/len/index", why == "", why, props))
+			}
+		}
+	}
+	out = append(out, mkObT("templates[sources-found]", "template sources were found (vacuity guard)", nSrc > 0, fmt.Sprintf("%d sources", nSrc), props))
+
+	// (4) JSON bodies come from encoding/json
+	for _, short := range []string{"(*proxy.OAuthProxy).XHRError", "(*auth.Authenticator).Redeem", "(*auth.Authenticator).Refresh", "(*auth.Authenticator).GetProfile"} {
+		fn := eng.fnByShort(short)
+		if fn == nil {
+			out = append(out, mkObT(short+"/json[function]", "function exists", false, "missing", props))
+			continue
+		}
+		n := 0
+		bad := ""
+		for _, b := range fn.Blocks {
+			for _, in := range b.Instrs {
+				c, ok := in.(*ssa.Call)
+				if !ok || !c.Call.IsInvoke() || c.Call.Method.Name() != "Write" {
+					continue
+				}
+				n++
+				if !fromJSONMarshal(c.Call.Args[0]) {
+					bad = c.Call.Args[0].String()
+				}
+			}
+		}
+		out = append(out, mkObT(short+"/json[body-from-encoding-json]", "every body written is the result of json.Marshal", n > 0 && bad == "", fmt.Sprintf("%d writes; offending: %s", n, bad), props))
+	}
+	if fn := eng.fnByShort("auth.writeJSONResponse"); fn != nil {
+		enc, other := 0, 0
+		for _, b := range fn.Blocks {
+			for _, in := range b.Instrs {
+				if c, ok := in.(*ssa.Call); ok {
+					if sc := c.Call.StaticCallee(); sc != nil {
+						switch sc.String() {
+						case "(*encoding/json.Encoder).Encode":
+							enc++
+						case "fmt.Fprintf", "fmt.Fprint", "fmt.Fprintln":
+							other++
+						}
+					}
+					if c.Call.IsInvoke() && c.Call.Method.Name() == "Write" {
+						other++
+					}
+				}
+			}
+		}
+		out = append(out, mkObT("auth.writeJSONResponse/json[body-from-encoding-json]", "the JSON body is written by json.Encoder.Encode (or, on its error, the encoder's own error text)", enc == 1 && other == 0, fmt.Sprintf("Encode calls %d, other writes %d", enc, other), props))
+	}
+	return out
+}
+
+func shortPkg(p string) string { return strings.TrimPrefix(p, modPrefix+"internal/") }
+
+func mkObT(name, clause string, ok bool, detail string, props []string) *Obligation {
+	o := mkOb(name, "types", clause, ok, detail, props)
+	if ok {
+		o.Solvers = map[string]int{"go/types": 1}
+		o.VCs[0].Solver = "go/types"
+	}
+	return o
+}
+
+// inertType explains why a type may carry trusted or dynamic content; "" if it cannot.
+func inertType(t types.Type, seen map[types.Type]bool) string {
+	if seen[t] {
+		return ""
+	}
+	seen[t] = true
+	if n, ok := t.(*types.Named); ok && n.Obj().Pkg() != nil {
+		if n.Obj().Pkg().Path() == "html/template" && trustedTemplateTypes[n.Obj().Name()] {
+			return "trusted type template." + n.Obj().Name()
+		}
+	}
+	switch u := t.Underlying().(type) {
+	case *types.Basic:
+		return ""
+	case *types.Pointer:
+		return inertType(u.Elem(), seen)
+	case *types.Slice:
+		return inertType(u.Elem(), seen)
+	case *types.Array:
+		return inertType(u.Elem(), seen)
+	case *types.Map:
+		if w := inertType(u.Key(), seen); w != "" {
+			return w
+		}
+		return inertType(u.Elem(), seen)
+	case *types.Struct:
+		for i := 0; i < u.NumFields(); i++ {
+			if w := inertType(u.Field(i).Type(), seen); w != "" {
+				return "field " + u.Field(i).Name() + ": " + w
+			}
+		}
+		return ""
+	case *types.Interface:
+		return "interface-typed value (its dynamic type could be a trusted template type)"
+	}
+	return "type " + t.String()
+}
+
+func fromJSONMarshal(v ssa.Value) bool {
+	switch x := v.(type) {
+	case *ssa.Extract:
+		if c, ok := x.Tuple.(*ssa.Call); ok && x.Index == 0 {
+			if sc := c.Call.StaticCallee(); sc != nil {
+				return sc.String() == "encoding/json.Marshal" || sc.String() == "encoding/json.MarshalIndent"
+			}
+		}
+	case *ssa.UnOp:
+		// a field holding pre-marshalled JSON (publicCertsJSON) is not accepted here
+		return false
+	case *ssa.Phi:
+		for _, e := range x.Edges {
+			if !fromJSONMarshal(e) {
+				return false
+			}
+		}
+		return true
+	}
+	return false
+}
+
+var allowedTemplateFuncs = map[string]bool{"eq": true, "ne": true, "gt": true, "lt": true, "ge": true, "le": true, "len": true, "index": true, "not": true, "and": true, "or": true}
+
+func checkTemplateSource(src string) string {
+	trees, err := parse.Parse("t", src, "{{", "}}", map[string]interface{}{"eq": 1, "ne": 1, "gt": 1, "lt": 1, "ge": 1, "le": 1, "len": 1, "index": 1, "not": 1, "and": 1, "or": 1,
+		"html": 1, "js": 1, "urlquery": 1, "print": 1, "printf": 1, "println": 1, "call": 1, "slice": 1})
+	if err != nil {
+		return "template does not parse: " + err.Error()
+	}
+	var why string
+	var walk func(n parse.Node)
+	walk = func(n parse.Node) {
+		if n == nil || why != "" {
+			return
+		}
+		switch x := n.(type) {
+		case *parse.ListNode:
+			if x != nil {
+				for _, c := range x.Nodes {
+					walk(c)
+				}
+			}
+		case *parse.ActionNode:
+			walk(x.Pipe)
+		case *parse.PipeNode:
+			if x != nil {
+				for _, c := range x.Cmds {
+					walk(c)
+				}
+			}
+		case *parse.CommandNode:
+			for _, a := range x.Args {
+				walk(a)
+			}
+		case *parse.IdentifierNode:
+			if !allowedTemplateFuncs[x.Ident] {
+				why = "template function " + x.Ident
+			}
+		case *parse.IfNode:
+			walk(x.Pipe)
+			walk(x.List)
+			walk(x.ElseList)
+		case *parse.RangeNode:
+			walk(x.Pipe)
+			walk(x.List)
+			walk(x.ElseList)
+		case *parse.WithNode:
+			walk(x.Pipe)
+			walk(x.List)
+			walk(x.ElseList)
+		case *parse.TemplateNode:
+			walk(x.Pipe)
+		case *parse.TextNode, *parse.FieldNode, *parse.VariableNode, *parse.DotNode, *parse.StringNode, *parse.NumberNode, *parse.BoolNode, *parse.NilNode, *parse.ChainNode, *parse.CommentNode:
+		default:
+			why = fmt.Sprintf("template construct %T", n)
+		}
+	}
+	for _, t := range trees {
+		if t.Root != nil {
+			walk(t.Root)
+		}
+	}
+	return why
+}
